@@ -642,32 +642,54 @@ def category_mapping(ctx, tick, tr):
                     ex.file, ex.line)
 
 
-def partial_ops(ctx, reach):
+HIERARCHY = {
+    'OverflowError': ('ArithmeticError', 'Exception'),
+    'ZeroDivisionError': ('ArithmeticError', 'Exception'),
+    'ValueError': ('Exception',),
+    'TypeError': ('Exception',),
+    'IndexError': ('LookupError', 'Exception'),
+}
+
+
+def _caught_by(handlers):
+    out = set()
+    for h in handlers:
+        if h.type is None:
+            out.add('Exception')
+        elif isinstance(h.type, ast.Tuple):
+            out |= {dotted(e) for e in h.type.elts}
+        else:
+            out.add(dotted(h.type))
+    return out
+
+
+def _unmapped(raisable, caught):
+    return {e for e in raisable
+            if e not in caught and not (set(HIERARCHY.get(e, ())) & caught)}
+
+
+def partial_ops(ctx, reach, tr=None):
     """Armed partial operations in the VM handler trees (each rule kind was
     confirmed with a witness program before arming)."""
     repo = ctx.repo
+    # what the boundary (the try around the handler call in tick) maps to
+    # a trap
+    boundary = _caught_by(tr.handlers) if tr is not None else set()
     rule = 'C07.partial-operation-unmapped'
     ctx.rule(rule, 'partial host operations on run-time values (**, '
              'int(round(x))/math.floor(x) of a float, bytes([n]), x[-1] of '
              'a possibly empty list) are range-guarded or their exception '
              'is one the boundary maps')
 
-    def enclosing_catches(node, fnode, names):
+    def enclosing_catches(node, fnode):
+        caught = set()
         for a in ancestors(node):
             if a is fnode:
                 break
-            if isinstance(a, ast.Try):
-                for h in a.handlers:
-                    hs = set()
-                    if h.type is None:
-                        return True
-                    if isinstance(h.type, ast.Tuple):
-                        hs = {dotted(e) for e in h.type.elts}
-                    else:
-                        hs = {dotted(h.type)}
-                    if hs & names:
-                        return True
-        return False
+            if isinstance(a, ast.Try) and any(
+                    node is y for b in a.body for y in ast.walk(b)):
+                caught |= _caught_by(a.handlers)
+        return caught
     n = 0
     for f in sorted(reach, key=lambda f: f.key):
         if not f.module.name.startswith('qvm.') or \
@@ -684,26 +706,26 @@ def partial_ops(ctx, reach):
             kind = None
             if isinstance(node, ast.BinOp) and isinstance(node.op, ast.Pow) \
                     and '.value' in unparse(node):
-                kind = ('pow', {'OverflowError', 'ArithmeticError',
-                                'Exception'})
+                # OverflowError for large results; a negative base with a
+                # fractional exponent yields a complex number, which the
+                # CellValue range test rejects with TypeError
+                kind = ('pow', {'OverflowError', 'TypeError'})
             elif isinstance(node, ast.Call) and dotted(node.func) == 'int' \
                     and node.args and isinstance(node.args[0], ast.Call) \
                     and dotted(node.args[0].func) == 'round':
-                kind = ('int-round', {'OverflowError', 'ValueError',
-                                      'ArithmeticError', 'Exception'})
+                # OverflowError for +-inf, ValueError for NaN
+                kind = ('int-round', {'OverflowError', 'ValueError'})
             elif isinstance(node, ast.Call) and \
                     dotted(node.func) == 'math.floor' and \
                     '.value' in unparse(node):
-                kind = ('floor', {'OverflowError', 'ValueError',
-                                  'Exception'})
+                kind = ('floor', {'OverflowError', 'ValueError'})
             elif isinstance(node, ast.Call) and dotted(node.func) == 'bytes' \
                     and node.args and isinstance(node.args[0], ast.List):
-                kind = ('bytes', {'ValueError', 'Exception'})
+                kind = ('bytes', {'ValueError'})
             elif isinstance(node, ast.Subscript) and \
                     const(node.slice) == -1 and \
                     isinstance(node.ctx, ast.Load):
-                kind = ('last-element', {'IndexError', 'LookupError',
-                                         'Exception'})
+                kind = ('last-element', {'IndexError'})
             if kind is None:
                 continue
             n += 1
@@ -715,7 +737,9 @@ def partial_ops(ctx, reach):
                 if src is not None and str(src).split('.')[-1] not in (
                         'SINGLE', 'DOUBLE'):
                     continue
-            guarded = enclosing_catches(node, fn, kind[1])
+            left = _unmapped(kind[1], boundary |
+                             enclosing_catches(node, fn))
+            guarded = not left
             if not guarded and kind[0] in ('bytes', 'last-element') \
                     and outer is None:
                 # range / emptiness guard dominating the use
@@ -764,9 +788,10 @@ def partial_ops(ctx, reach):
                 ctx.finding(rule, construct,
                             f'{kind[0]} operation `{unparse(node)[:60]}` in '
                             f'{f.qualname} can raise '
-                            f'{sorted(kind[1] - {"Exception", "ArithmeticError", "LookupError"})} '
+                            f'{sorted(left)} '
                             f'for run-time values; nothing maps it to a '
-                            f'trap', f.file, node.lineno)
+                            f'trap (tick maps {sorted(boundary)})',
+                            f.file, node.lineno)
     ctx.floor('partial operations examined', n, 8)
 
 
@@ -792,7 +817,7 @@ def run(ctx):
     none_state(ctx)
     interrupt_clause(ctx, tick)
     category_mapping(ctx, tick, tr)
-    partial_ops(ctx, reach)
+    partial_ops(ctx, reach, tr)
     return ('Escape/boundary analysis of the VM: call-graph reachability of '
             'QvmCpu.trap from code outside the try of tick(); explicit raise '
             'classes in the handler and device call trees; well-formedness '
